@@ -5,6 +5,43 @@ NOTES = ("Machine-checked proof in Lean 4 about a hand-written model that mirror
          "implementation's traces. See DESIGN.md.")
 NOT_YET = {}
 TEXT = {
+ "C01": {
+  "level": "Theorems next_boot_patch_sound (for EVERY world, any disk contents: a reported next-boot patch is the recorded selection, its file exists with the recorded size, "
+           "and with a key the recorded signature verifies over the file's current SHA-256) and C01_holds (over all histories incl. every damage of the alphabet: the size is the "
+           "size at a verified install of that number; launch start records a boot only of such a patch). The same monitor runs on the real library's traces under heavy damage.",
+  "design_ref": "DESIGN.md section 3, C01",
+  "note": "Lean kernel; `verify` parameter = ring's verdicts; stale JSON = earlier versions of the file (StaleOK); forged state files excluded (not in the property's list).",
+  "technique": "Lean 4 theorems (case analysis for all disks + provenance invariant over histories) + differential correspondence check",
+ },
+ "C07": {
+  "level": "Theorems C07_signed_only / C07_missing_signature / C07_bad_key (every world), C07_rejection_is_fallback, C07_install_requires_signature (the install gate added by the fix), "
+           "plus C01_holds. Monitors C01 and C05 run on the real library with valid, invalid and unparsable keys and every signature variant.",
+  "design_ref": "DESIGN.md section 3, C07",
+  "note": "ring/base64 trusted; `verify` filled with ring's real verdicts per (key, hash, signature) triple by the harness.",
+  "technique": "Lean 4 theorems (corollaries of validate-on-read for all disks) + differential correspondence check",
+ },
+ "C05": {
+  "level": "Theorems update_installed_sound (for every disk: 'installed' implies the download decodes against the base to a file with the advertised SHA-256, signed if required, "
+           "and the selected artifact is byte-identical to it), installStage_failed (every other download is an error status and leaves the disk alone) and C05_holds over all histories. "
+           "The decoder is the Lean model of bipatch; it and SHA-256 are compared with the real crates on the same bytes.",
+  "design_ref": "DESIGN.md section 3, C05",
+  "note": "zstd trusted (harness supplies the decompressor's actual output); hex crate semantics modelled.",
+  "technique": "Lean 4 theorems (outcome case lemmas of the update path, all states) + differential correspondence check",
+ },
+ "C06": {
+  "level": "Theorems C06_check_failed, C06_bad_response, C06_download_failed, afterCheck_healthy and C06_holds (= the C05 monitor over all histories and arbitrary server scripts: every "
+           "request may fail, responses may be contradictory). Callback-level fault injection at every request position runs on the real library; totality of `step` gives 'every call returns'.",
+  "design_ref": "DESIGN.md section 3, C06",
+  "note": "partial: reqwest/TLS/socket behaviour is runtime and only its classified result is modelled.",
+  "technique": "Lean 4 theorems + differential correspondence check with scripted network failures",
+ },
+ "C20": {
+  "level": "Theorem C20_holds (under AppConsistent): every check request carries app id, release, platform, arch and the channel chosen by precedence; a per-call channel never enters the "
+           "stored configuration (step_config); every event, queued ones included, carries the configured app id and release. Monitor runs on the real library with arbitrary UTF-8 strings.",
+  "design_ref": "DESIGN.md section 3, C20",
+  "note": "hypothesis AppConsistent (same compiled-in app id across restarts of one history).",
+  "technique": "Lean 4 theorem (invariant on the persisted event queue) + differential correspondence check",
+ },
  "C19": {
   "level": "Theorem C19_holds: every model history is accepted by the C19 monitor - all five reclamation clauses (success sweep, failed patch, rolled-back patch, "
            "superseded pending patch, release change) proved for every reachable and unreachable disk the call may start from, arbitrary histories incl. damage. "
